@@ -134,6 +134,12 @@ func C15() int {
 		if li%6 == 4 {
 			lg.flags.W = true // together with --redactNamespaces (the flag-off run keeps -w)
 		}
+		if li%3 == 2 {
+			// the flag may be repeated: further prefixes that match none of the log's namespaces (one
+			// extends the main prefix and sorts before every namespace of the log, one sorts after,
+			// one is unrelated) change nothing
+			lg.flags.FMore = []string{prefix + ".a", "zzz" + g.Token()[2:7], prefix + "~", "aaa" + g.Token()[2:6]}
+		}
 		for k := 0; k < 10; k++ {
 			verb := verbs[(li+k)%len(verbs)]
 			car := gen.Carriers[(li+k/2)%3]
@@ -183,7 +189,7 @@ func C15() int {
 			lines[i] = l.it.Raw
 		}
 		foff := lg.flags
-		foff.F = ""
+		foff.F, foff.FMore = "", nil
 		of := RunLines(s, lg.flags, li, lines)
 		on := RunLines(s, foff, li, lines)
 		m := &c15Map{n2p: map[string]string{}, p2n: map[string]string{}, form: regexp.MustCompile("^" + regexp.QuoteMeta(lg.flags.Replacement()) + "_[0-9a-f]{16}$")}
